@@ -2,10 +2,13 @@
 //! `TimestampOnClose`, the epoch-unit formatters and `get_time_source`, all over a
 //! `ManuallyAdvancedTimeSource`.
 //!
-//! Case lines (the same text is the request to the Lean driver, `swt`/`timerd` mapped to `sw`/`timer`):
+//! Case lines (the same text is the request to the Lean driver, `swt`/`swp`/`timerd` mapped to `sw`/`timer`):
 //!   `sw  <op>…`  ops `a<ns>` advance | `sb` start borrowed, `pb` stop, `db` drop, `xb` discard, `wb` overwrite
 //!                | `so<k>` start owned into slot k, `po<k> do<k> xo<k> wo<k>` | `c` clear
 //!   `swt <op>…`  same, every owned guard is finished on a freshly spawned thread
+//!   `swp <op>…`  same, every maximal run of consecutive stop/drop/discard operations on owned guards is
+//!                executed at once on parallel threads released by a barrier (no observation inside a run;
+//!                the reports afterwards cannot depend on the order: theorem `c18_finish_order_irrelevant`)
 //!   `timer <op>…` / `timerd <op>…`  ops `a<ns>` | `s` (stop); `timerd` creates the timer with
 //!                `Timer::start_now()` under a thread-local time source instead of the explicit one
 //!   `ts <w0> <op>…`  ops `w<int ns since epoch>` set wall clock | `n` new Timestamp | `o` new
@@ -118,9 +121,19 @@ enum SOp {
     Close,
 }
 
+/// how owned guards are finished: in program order on the harness thread; each on a freshly spawned
+/// thread (joined before the next operation); or, for maximal runs of consecutive stop/drop/discard
+/// operations on owned guards, all at once on parallel threads released by a barrier
+#[derive(Clone, Copy, Debug, PartialEq, Eq)]
+enum Mode {
+    Seq,
+    Threaded,
+    Parallel,
+}
+
 #[derive(Clone, Debug, PartialEq)]
 enum Case {
-    Sw { threaded: bool, ops: Vec<Op> },
+    Sw { mode: Mode, ops: Vec<Op> },
     Timer { default_ts: bool, ops: Vec<TOp> },
     Ts { w0: i128, ops: Vec<SOp> },
     Resolve { e: bool, t: bool, r: bool },
@@ -129,8 +142,12 @@ enum Case {
 impl Case {
     fn encode(&self) -> String {
         match self {
-            Case::Sw { threaded, ops } => {
-                let mut s = String::from(if *threaded { "swt" } else { "sw" });
+            Case::Sw { mode, ops } => {
+                let mut s = String::from(match mode {
+                    Mode::Seq => "sw",
+                    Mode::Threaded => "swt",
+                    Mode::Parallel => "swp",
+                });
                 for o in ops {
                     s.push(' ');
                     s.push_str(&o.enc());
@@ -167,7 +184,7 @@ impl Case {
     /// the request line for the Lean driver
     fn request(&self) -> String {
         let s = self.encode();
-        if let Some(r) = s.strip_prefix("swt") {
+        if let Some(r) = s.strip_prefix("swt").or(s.strip_prefix("swp")) {
             format!("sw{r}")
         } else if let Some(r) = s.strip_prefix("timerd") {
             format!("timer{r}")
@@ -180,8 +197,12 @@ impl Case {
         let head = it.next()?;
         let rest: Vec<&str> = it.collect();
         match head {
-            "sw" | "swt" => Some(Case::Sw {
-                threaded: head == "swt",
+            "sw" | "swt" | "swp" => Some(Case::Sw {
+                mode: match head {
+                    "swt" => Mode::Threaded,
+                    "swp" => Mode::Parallel,
+                    _ => Mode::Seq,
+                },
                 ops: rest.iter().map(|s| Op::dec(s)).collect::<Option<_>>()?,
             }),
             "timer" | "timerd" => Some(Case::Timer {
@@ -229,12 +250,67 @@ fn opt_str(d: Option<Duration>) -> String {
     }
 }
 
+/// `swp`: (start, length) of every maximal run of at least two consecutive stop/drop/discard operations
+/// on distinct live owned guards
+fn parallel_groups(ops: &[Op]) -> Vec<(usize, usize)> {
+    let mut live = [false; MAX_SLOTS];
+    let mut groups = vec![];
+    let mut i = 0;
+    while i < ops.len() {
+        match ops[i] {
+            Op::So(k) => {
+                live[k as usize] = true;
+                i += 1;
+            }
+            Op::Wo(k) => {
+                live[k as usize] = false;
+                i += 1;
+            }
+            Op::Po(k) | Op::Do(k) | Op::Xo(k) if live[k as usize] => {
+                let start = i;
+                while i < ops.len() {
+                    match ops[i] {
+                        Op::Po(k) | Op::Do(k) | Op::Xo(k) if live[k as usize] => {
+                            live[k as usize] = false;
+                            i += 1;
+                        }
+                        _ => break,
+                    }
+                }
+                if i - start >= 2 {
+                    groups.push((start, i - start));
+                }
+            }
+            _ => i += 1,
+        }
+    }
+    groups
+}
+
+/// the model's reply with the observations the parallel run cannot make blanked out
+fn blank_parallel(ops: &[Op], reply: &str) -> String {
+    let mut toks: Vec<String> = reply.split(' ').map(|s| s.to_string()).collect();
+    if toks.len() != ops.len() + 2 {
+        return reply.to_string();
+    }
+    for (start, len) in parallel_groups(ops) {
+        for t in &mut toks[start + 1..start + len] {
+            if let Some((r, _)) = t.split_once('/') {
+                *t = format!("{r}/*");
+            }
+        }
+    }
+    toks.join(" ")
+}
+
 struct SwCtx<'x> {
     ops: &'x [Op],
     i: usize,
     fake: ManuallyAdvancedTimeSource,
     owned: Vec<Option<OwnedTimerGuard>>,
     threaded: bool,
+    /// `swp`: start index → length of every parallel group
+    groups: BTreeMap<usize, usize>,
 }
 
 enum OwnedRes {
@@ -245,7 +321,47 @@ enum OwnedRes {
 impl SwCtx<'_> {
     /// operations that do not touch the stopwatch itself: advancing the clock, finishing owned guards.
     /// Returns the `ret` part of the token, or `None` if `op` is not of that kind.
-    fn free_op(&mut self, op: Op) -> Option<OwnedRes> {
+    fn free_op(&mut self, op: Op, toks: &mut Vec<String>) -> Option<OwnedRes> {
+        if let Some(len) = self.groups.get(&(self.i - 1)).copied() {
+            // `swp`: the whole run of stop/drop/discard operations at once, one thread per guard
+            let start = self.i - 1;
+            let barrier = std::sync::Arc::new(std::sync::Barrier::new(len));
+            let mut handles = vec![];
+            for idx in start..start + len {
+                let op = self.ops[idx];
+                let (Op::Po(k) | Op::Do(k) | Op::Xo(k)) = op else { return Some(OwnedRes::Inexpressible) };
+                let Some(g) = self.owned.get_mut(k as usize).and_then(|s| s.take()) else { return Some(OwnedRes::Inexpressible) };
+                let b = barrier.clone();
+                handles.push(std::thread::spawn(move || {
+                    b.wait();
+                    match op {
+                        Op::Po(_) => g.stop().as_nanos().to_string(),
+                        Op::Do(_) => {
+                            drop(g);
+                            "-".to_string()
+                        }
+                        _ => {
+                            g.discard();
+                            "-".to_string()
+                        }
+                    }
+                }));
+            }
+            let mut rets: Vec<String> = vec![];
+            for h in handles {
+                match h.join() {
+                    Ok(r) => rets.push(r),
+                    Err(e) => std::panic::resume_unwind(e),
+                }
+            }
+            self.i = start + len;
+            let last = rets.pop().unwrap();
+            for r in rets {
+                // no observation between the members of a group
+                toks.push(format!("{r}/*"));
+            }
+            return Some(OwnedRes::Done(last));
+        }
         let threaded = self.threaded;
         fn fin<R: Send + 'static>(threaded: bool, g: OwnedTimerGuard, f: impl FnOnce(OwnedTimerGuard) -> R + Send + 'static) -> R {
             if threaded {
@@ -327,7 +443,7 @@ fn with_borrowed_guard(guard: TimerGuard<'_>, cx: &mut SwCtx<'_>, toks: &mut Vec
             }
             // need `&mut stopwatch`, which the guard holds
             Op::Sb | Op::So(_) | Op::C => return GuardEnd::Inexpressible,
-            _ => match cx.free_op(op) {
+            _ => match cx.free_op(op, toks) {
                 Some(OwnedRes::Done(ret)) => toks.push(format!("{ret}/-")),
                 _ => return GuardEnd::Inexpressible,
             },
@@ -335,10 +451,10 @@ fn with_borrowed_guard(guard: TimerGuard<'_>, cx: &mut SwCtx<'_>, toks: &mut Vec
     }
 }
 
-fn run_sw(ops: &[Op], threaded: bool) -> Option<String> {
+fn run_sw(ops: &[Op], mode: Mode) -> Option<String> {
     let fake = ManuallyAdvancedTimeSource::at_time(UNIX_EPOCH);
     let mut sw = Stopwatch::new_from_timesource(TimeSource::custom(fake.clone()));
-    let mut cx = SwCtx { ops, i: 0, fake, owned: (0..MAX_SLOTS).map(|_| None).collect(), threaded };
+    let mut cx = SwCtx { ops, i: 0, fake, owned: (0..MAX_SLOTS).map(|_| None).collect(), threaded: mode == Mode::Threaded, groups: if mode == Mode::Parallel { parallel_groups(ops).into_iter().collect() } else { BTreeMap::new() } };
     let mut toks = vec![format!("-/{}", opt_str((&sw).close()))];
     while cx.i < ops.len() {
         let op = ops[cx.i];
@@ -366,7 +482,7 @@ fn run_sw(ops: &[Op], threaded: bool) -> Option<String> {
                 sw.clear();
                 toks.push(format!("-/{}", opt_str((&sw).close())));
             }
-            _ => match cx.free_op(op) {
+            _ => match cx.free_op(op, &mut toks) {
                 Some(OwnedRes::Done(ret)) => toks.push(format!("{ret}/{}", opt_str((&sw).close()))),
                 _ => return None,
             },
@@ -578,7 +694,7 @@ fn run_resolve(e: bool, t: bool, r: bool) -> String {
 /// implementation output in the driver's reply format; `None` = inexpressible; panics are observables
 fn run_impl(c: &Case) -> Option<String> {
     let r = catch(|| match c {
-        Case::Sw { threaded, ops } => run_sw(ops, *threaded),
+        Case::Sw { mode, ops } => run_sw(ops, *mode),
         Case::Timer { default_ts, ops } => run_timer(ops, *default_ts),
         Case::Ts { w0, ops } => run_ts(*w0, ops).map(|r| r.reply),
         Case::Resolve { e, t, r } => Some(run_resolve(*e, *t, *r)),
@@ -666,6 +782,9 @@ fn oracle_sw(ops: &[Op], out: &str) -> Option<String> {
         let want_ret = ret.map(|d| d.to_string()).unwrap_or("-".into());
         if r != want_ret {
             return Some(format!("operation {i} ({}): stop() returned {r}, the guard measured {want_ret}", op.enc()));
+        }
+        if c == "*" {
+            continue;
         }
         if c != "-" {
             let want = fmt(expected_total(&events));
@@ -828,8 +947,8 @@ fn key_of(c: &Case) -> &'static str {
 
 fn shrink(c: &Case) -> Case {
     match c {
-        Case::Sw { threaded, ops } => {
-            let mut ops = shrink_list(ops, |o| fails(&Case::Sw { threaded: *threaded, ops: o.to_vec() }));
+        Case::Sw { mode, ops } => {
+            let mut ops = shrink_list(ops, |o| fails(&Case::Sw { mode: *mode, ops: o.to_vec() }));
             // smaller clock advances
             for i in 0..ops.len() {
                 if let Op::Adv(d) = ops[i] {
@@ -837,7 +956,7 @@ fn shrink(c: &Case) -> Case {
                         if small < d {
                             let mut cand = ops.clone();
                             cand[i] = Op::Adv(small + i as u64 * 10);
-                            if cand[i] != ops[i] && fails(&Case::Sw { threaded: *threaded, ops: cand.clone() }) {
+                            if cand[i] != ops[i] && fails(&Case::Sw { mode: *mode, ops: cand.clone() }) {
                                 ops = cand;
                                 break;
                             }
@@ -845,8 +964,8 @@ fn shrink(c: &Case) -> Case {
                     }
                 }
             }
-            let unthreaded = Case::Sw { threaded: false, ops: ops.clone() };
-            if *threaded && fails(&unthreaded) { unthreaded } else { Case::Sw { threaded: *threaded, ops } }
+            let unthreaded = Case::Sw { mode: Mode::Seq, ops: ops.clone() };
+            if *mode != Mode::Seq && fails(&unthreaded) { unthreaded } else { Case::Sw { mode: *mode, ops } }
         }
         Case::Timer { default_ts, ops } => Case::Timer {
             default_ts: *default_ts,
@@ -984,6 +1103,47 @@ fn gen_sw(rng: &mut Rng, len: usize, slots: usize, nasty: bool) -> Vec<Op> {
     ops
 }
 
+/// rounds of: start 2–4 owned guards, maybe a borrowed one, finish all owned ones in one run
+/// (the run is executed in parallel in mode `swp`), finish the borrowed one
+fn gen_sw_bursts(rng: &mut Rng, rounds: usize, nasty: bool) -> Vec<Op> {
+    let mut ops = vec![];
+    for _ in 0..rounds {
+        let mut slots: Vec<u8> = (0..5).collect();
+        rng.shuffle(&mut slots);
+        slots.truncate(rng.range(2, 4) as usize);
+        for k in &slots {
+            ops.push(Op::So(*k));
+            if rng.chance(2, 3) {
+                ops.push(Op::Adv(gen_advance(rng, nasty)));
+            }
+        }
+        let borrowed = rng.chance(1, 3);
+        if borrowed {
+            ops.push(Op::Sb);
+            ops.push(Op::Adv(gen_advance(rng, nasty)));
+        }
+        rng.shuffle(&mut slots);
+        for k in &slots {
+            ops.push(match rng.below(13) {
+                0..=4 => Op::Po(*k),
+                5..=8 => Op::Do(*k),
+                9..=11 => Op::Xo(*k),
+                _ => Op::Wo(*k),
+            });
+        }
+        if borrowed {
+            ops.push(*rng.pick(&[Op::Pb, Op::Db, Op::Xb, Op::Wb]));
+        }
+        if rng.chance(1, 4) {
+            ops.push(Op::C);
+        }
+        if rng.chance(1, 2) {
+            ops.push(Op::Adv(gen_advance(rng, nasty)));
+        }
+    }
+    ops
+}
+
 fn gen_timer(rng: &mut Rng, len: usize, nasty: bool) -> Vec<TOp> {
     (0..len).map(|_| if rng.chance(1, 3) { TOp::Stop } else { TOp::Adv(gen_advance(rng, nasty)) }).collect()
 }
@@ -1106,8 +1266,20 @@ fn op_kind(o: &Op) -> &'static str {
 
 fn measure(c: &Case, out: &str, sh: &mut Shard) {
     match c {
-        Case::Sw { threaded, ops } => {
-            sh.bump(if *threaded { "component:stopwatch (owned guards finished on other threads)" } else { "component:stopwatch" }, 1);
+        Case::Sw { mode, ops } => {
+            sh.bump(
+                match mode {
+                    Mode::Seq => "component:stopwatch",
+                    Mode::Threaded => "component:stopwatch (owned guards finished on other threads)",
+                    Mode::Parallel => "component:stopwatch (owned guards finished on parallel threads at once)",
+                },
+                1,
+            );
+            if *mode == Mode::Parallel {
+                for (_, n) in parallel_groups(ops) {
+                    sh.bump(&format!("sw parallel group size:{}", n.min(4)), 1);
+                }
+            }
             sh.bump(&format!("sw length:{}", match ops.len() { 0..=4 => "0-4", 5..=8 => "5-8", 9..=20 => "9-20", 21..=60 => "21-60", _ => "61+" }), 1);
             for o in ops {
                 sh.bump(op_kind(o), 1);
@@ -1220,6 +1392,7 @@ fn run_batch(cases: &[Case], driver: &Option<String>, sh: &mut Shard, exhaustive
         Some(replies) => {
             sh.bump("model requests", requests.len() as u64);
             for ((out, reply), ci) in outs.iter().zip(replies.iter()).zip(idx.iter()) {
+                let reply = &canon_reply(&cases[*ci], reply);
                 if out != reply && sh.disagreements.len() < 20 {
                     sh.disagreements.push((key_of(&cases[*ci]).replace(':', "/"), cases[*ci].encode(), out.clone(), reply.clone()));
                 }
@@ -1229,17 +1402,24 @@ fn run_batch(cases: &[Case], driver: &Option<String>, sh: &mut Shard, exhaustive
     }
 }
 
+fn canon_reply(c: &Case, reply: &str) -> String {
+    match c {
+        Case::Sw { mode: Mode::Parallel, ops } => blank_parallel(ops, reply),
+        _ => reply.to_string(),
+    }
+}
+
 /// minimal disagreeing form of a case (re-asks the driver)
 fn shrink_disagreement(c: &Case, driver: &Option<String>) -> Case {
     let disagrees = |c: &Case| -> bool {
         let Some(out) = run_impl(c) else { return false };
         match run_driver(driver, "timers", &[c.request()]) {
-            Some(r) => r[0] != out,
+            Some(r) => canon_reply(c, &r[0]) != out,
             None => false,
         }
     };
     match c {
-        Case::Sw { threaded, ops } => Case::Sw { threaded: *threaded, ops: shrink_list(ops, |o| disagrees(&Case::Sw { threaded: *threaded, ops: o.to_vec() })) },
+        Case::Sw { mode, ops } => Case::Sw { mode: *mode, ops: shrink_list(ops, |o| disagrees(&Case::Sw { mode: *mode, ops: o.to_vec() })) },
         Case::Timer { default_ts, ops } => Case::Timer { default_ts: *default_ts, ops: shrink_list(ops, |o| disagrees(&Case::Timer { default_ts: *default_ts, ops: o.to_vec() })) },
         Case::Ts { w0, ops } => Case::Ts { w0: *w0, ops: shrink_list(ops, |o| disagrees(&Case::Ts { w0: *w0, ops: o.to_vec() })) },
         Case::Resolve { .. } => c.clone(),
@@ -1251,7 +1431,7 @@ fn targeted_search(c: &Case, rng: &mut Rng, budget: u64, rep: &mut Report) {
     let mut found: Option<(Case, String, String)> = None;
     for _ in 0..budget {
         let cand = match c {
-            Case::Sw { threaded, ops } => {
+            Case::Sw { mode, ops } => {
                 let mut o = ops.clone();
                 let extra = gen_sw(rng, 6, 3, false);
                 for _ in 0..rng.range(1, 3) {
@@ -1271,7 +1451,7 @@ fn targeted_search(c: &Case, rng: &mut Rng, budget: u64, rep: &mut Report) {
                         _ => o.extend(extra.iter().take(rng.range(1, 6) as usize)),
                     }
                 }
-                Case::Sw { threaded: *threaded, ops: o }
+                Case::Sw { mode: *mode, ops: o }
             }
             Case::Timer { default_ts, ops } => {
                 let mut o = ops.clone();
@@ -1355,8 +1535,18 @@ fn main() {
             };
             let slots = rng.range(1, 4) as usize;
             let nasty = i % 5 == 0;
-            let threaded = i % 16 == 7;
-            cur.push(Case::Sw { threaded, ops: gen_sw(&mut rng, len, slots, nasty) });
+            let mode = match i % 16 {
+                7 => Mode::Threaded,
+                3 | 11 => Mode::Parallel,
+                _ => Mode::Seq,
+            };
+            let ops = if mode == Mode::Parallel || i % 16 == 5 {
+                let rounds = rng.range(1, 6) as usize;
+                gen_sw_bursts(&mut rng, rounds, nasty)
+            } else {
+                gen_sw(&mut rng, len, slots, nasty)
+            };
+            cur.push(Case::Sw { mode, ops });
             if cur.len() >= 2_000 {
                 work.push(Work::Batch(std::mem::take(&mut cur)));
             }
@@ -1427,7 +1617,7 @@ fn main() {
                                 let mut p = prefix.clone();
                                 enumerate_sw(&mut p, &shape, *len, *slots, &mut |ops| {
                                     n += 1;
-                                    cur.push(Case::Sw { threaded: false, ops: ops.to_vec() });
+                                    cur.push(Case::Sw { mode: Mode::Seq, ops: ops.to_vec() });
                                     if cur.len() >= 10_000 {
                                         run_batch(&cur, &driver, &mut sh, true);
                                         cur.clear();
@@ -1491,7 +1681,7 @@ fn main() {
         if let Some(c) = Case::decode(&case) {
             let m = shrink_disagreement(&c, &args.driver);
             let out = run_impl(&m).unwrap_or_default();
-            let reply = run_driver(&args.driver, "timers", &[m.request()]).map(|r| r[0].clone()).unwrap_or_default();
+            let reply = run_driver(&args.driver, "timers", &[m.request()]).map(|r| canon_reply(&m, &r[0])).unwrap_or_default();
             if out != reply {
                 rep.disagreement(&comp, &m.encode(), &out, &reply);
             }
